@@ -134,6 +134,28 @@ func (bs *blockState) callStatic(f *ssa.Function, args []Val, ins ssa.Instructio
 }
 
 func (bs *blockState) applyContract(spec *FuncSpec, key string, args []Val, ins ssa.Instruction, resT types.Type) Val {
+	return bs.applyContractX(spec, key, args, ins, resT, nil)
+}
+
+// loadLv reads a location without generating obligations (for contract evaluation).
+func (e *Enc) loadLv(st *State, lv lvalue) Val {
+	switch lv.kind {
+	case "cell":
+		full := e.cellGet(st, lv.alloc)
+		return Val{lv.typ, full.C[lv.lo:lv.hi]}
+	case "field":
+		return e.loadField(st, lv.stT, lv.fidx, lv.obj)
+	case "elem":
+		return e.elemAt(st, lv.elemT, lv.obj, lv.idx)
+	case "ptr":
+		return e.loadPtr(st, lv.typ, lv.obj)
+	case "global":
+		return e.loadGlobal(st, lv.glob)
+	}
+	panic("loadLv " + lv.kind)
+}
+
+func (bs *blockState) applyContractX(spec *FuncSpec, key string, args []Val, ins ssa.Instruction, resT types.Type, extra map[string]lvalueOrVal) Val {
 	e := bs.e
 	if spec.Trusted {
 		e.usedTrusted[spec.Header] = true
@@ -148,11 +170,27 @@ func (bs *blockState) applyContract(spec *FuncSpec, key string, args []Val, ins 
 	for i, p := range spec.Params {
 		vars[p.Name] = args[i]
 	}
-	pre := &Ctx{E: e, Vars: vars, St: bs.st.clone(), where: e.key + " " + site + " requires"}
+	bindExtra := func(m map[string]Val, st *State) {
+		for n, x := range extra {
+			if x.v != nil {
+				m[n] = *x.v
+			} else {
+				m[n] = e.loadLv(st, *x.lv)
+			}
+		}
+	}
+	preVars := map[string]Val{}
+	for k, v := range vars {
+		preVars[k] = v
+	}
+	preStC := bs.st.clone()
+	bindExtra(preVars, preStC)
+	pre := &Ctx{E: e, Vars: preVars, St: preStC, where: e.key + " " + site + " requires"}
 	for i, r := range spec.Requires {
 		bs.assertG(site+".pre."+clauseName(r, i), "pre", pre.boolT(r.Expr), r.Src, ins)
 	}
 	preSt := pre.St
+	bs.ghostAt("call "+short+fmt.Sprintf("#%d", e.callOrd[short])+" before", ins, preVars)
 	// havoc what the callee may modify
 	bs.havocModifies(spec, vars, ins)
 	var res Val
@@ -160,7 +198,8 @@ func (bs *blockState) applyContract(spec *FuncSpec, key string, args []Val, ins 
 	for k, v := range vars {
 		post.Vars[k] = v
 	}
-	post.Old = &Ctx{E: e, Vars: vars, St: preSt, where: e.key + " " + site + " old"}
+	bindExtra(post.Vars, bs.st)
+	post.Old = &Ctx{E: e, Vars: preVars, St: preSt, where: e.key + " " + site + " old"}
 	if resT != nil {
 		res = e.freshVal("ret."+short, resT)
 		bs.e.assume(bs.g, e.typeFacts(res))
@@ -195,7 +234,46 @@ func (bs *blockState) applyContract(spec *FuncSpec, key string, args []Val, ins 
 	for _, en := range spec.Ensures {
 		bs.assumeG(post.boolT(en.Expr))
 	}
+	bs.ghostAt("call "+short+fmt.Sprintf("#%d", e.callOrd[short])+" after", ins, post.Vars)
 	return res
+}
+
+// ghostAt executes the ghost statements of the function under verification anchored here.
+// extra makes the callee's parameter/result names visible as arg_<name>.
+func (bs *blockState) ghostAt(anchor string, ins ssa.Instruction, extra map[string]Val) {
+	e := bs.e
+	if e.spec == nil {
+		return
+	}
+	for gi, gs := range e.spec.Ghost {
+		if gs.Anchor != anchor {
+			continue
+		}
+		e.ghostUsed[gi] = true
+		c := e.ctx(bs.st, "ghost "+anchor)
+		for k, v := range extra {
+			c.Vars["arg_"+k] = v
+		}
+		switch gs.Kind {
+		case "assert":
+			bs.assertG(fmt.Sprintf("ghost.%s.%s", sanitize(strings.ReplaceAll(anchor, " ", "_")), clauseName(gs.Clause, gi)), "ghost", c.boolT(gs.Clause.Expr), gs.Clause.Src, ins)
+		case "use":
+			// a proved lemma instance (pre => post): sound to assume
+			bs.e.assume(bs.g, c.boolT(gs.Clause.Expr))
+		case "set":
+			gt, ok := e.W.Specs.GhostVars[gs.Target]
+			if !ok {
+				panic(contractMismatch{"set of unknown ghost variable " + gs.Target})
+			}
+			v := c.tr(gs.Clause.Expr)
+			k := "g:ghost." + gs.Target
+			so := flatten(specType(gt))[0]
+			e.heapKey(bs.st, k, so)
+			n := e.fresh("G."+gs.Target, so)
+			e.def(eq(n, v.C[0]))
+			bs.st.m[k] = n
+		}
+	}
 }
 
 // havocModifies: `modifies` lists heap keys by "Type.field", "bytes", "all", or nothing.
@@ -224,6 +302,13 @@ func (bs *blockState) havocModifies(spec *FuncSpec, vars map[string]Val, ins ssa
 func (e *Enc) resolveModifies(m string) [][2]string {
 	if m == "bytes" {
 		return [][2]string{{elemKey(tByte, 0), "(Array Int (Array Int Int))"}}
+	}
+	if strings.HasPrefix(m, "ghost.") {
+		gt, ok := e.W.Specs.GhostVars[strings.TrimPrefix(m, "ghost.")]
+		if !ok {
+			panic(contractMismatch{"unknown ghost variable in modifies: " + m})
+		}
+		return [][2]string{{"g:" + m, flatten(specType(gt))[0]}}
 	}
 	parts := strings.Split(m, ".")
 	if len(parts) == 3 {
@@ -312,6 +397,12 @@ func (bs *blockState) indexAddr(x *ssa.IndexAddr) {
 		e.def(eq(idx, add(b.C[1], i)))
 		e.addrs[x] = lvalue{kind: "elem", obj: b.C[0], idx: idx, elemT: u.Elem(), typ: u.Elem()}
 	default:
+		if at, ok := isArrayPtr(t); ok {
+			b := bs.val(x.X)
+			bs.assertG(fmt.Sprintf("index.%d", e.ordinal("index")), "bounds", and(app("<=", "0", i), app("<", i, fmt.Sprint(at.Len()))), "array index in range", x)
+			e.addrs[x] = lvalue{kind: "elem", obj: b.C[0], idx: i, elemT: at.Elem(), typ: at.Elem()}
+			return
+		}
 		unsupp("IndexAddr on %s", t)
 	}
 }
@@ -332,6 +423,10 @@ func (bs *blockState) fieldAddr(x *ssa.FieldAddr) {
 			// field of a struct slice element: component sub-range of the element heap
 			unsupp("address of field of slice element (use whole-element load/store)")
 		case "ptr":
+			if _, nested := st.Field(x.Field).Type().Underlying().(*types.Struct); nested {
+				e.addrs[x] = lvalue{kind: "ptr", obj: subRef(blv.obj, x.Field), typ: st.Field(x.Field).Type()}
+				return
+			}
 			e.addrs[x] = lvalue{kind: "field", obj: blv.obj, stT: pt, fidx: x.Field, typ: st.Field(x.Field).Type()}
 			return
 		case "field":
@@ -340,6 +435,10 @@ func (bs *blockState) fieldAddr(x *ssa.FieldAddr) {
 		}
 	}
 	obj := bs.val(x.X).C[0]
+	if _, nested := st.Field(x.Field).Type().Underlying().(*types.Struct); nested {
+		e.addrs[x] = lvalue{kind: "ptr", obj: subRef(obj, x.Field), typ: st.Field(x.Field).Type()}
+		return
+	}
 	e.addrs[x] = lvalue{kind: "field", obj: obj, stT: pt, fidx: x.Field, typ: st.Field(x.Field).Type()}
 }
 
